@@ -154,6 +154,34 @@ def run():
         ino = os.stat(r1).st_ino
         os.rename(os.path.join(d, 'sub/..', 'r1') if os.path.isdir(os.path.join(d, 'sub')) else r1, os.path.join(d, 'r2'))
         ok('K-rename moves the entry, inode and content untouched', not os.path.exists(r1) and os.stat(os.path.join(d, 'r2')).st_ino == ino)
+        # stat / lstat: ENOENT is an answer (prelude: `Err` without fault exactly when nothing resolves / no entry)
+        missing = os.path.join(d, 'no-such-name')
+        dang = os.path.join(d, 'dangling')
+        os.symlink(os.path.join(d, 'nowhere'), dang)
+        for nm, pth in (('a missing name', missing), ('a dangling link', dang)):
+            try:
+                os.stat(pth)
+                ok('K-stat of %s fails' % nm, False)
+            except OSError as e:
+                ok('K-stat of %s fails with ENOENT' % nm, e.errno == errno.ENOENT)
+        try:
+            os.lstat(missing)
+            ok('K-lstat of a missing name fails', False)
+        except OSError as e:
+            ok('K-lstat of a missing name fails with ENOENT', e.errno == errno.ENOENT)
+        ok('K-lstat of a dangling link succeeds and reports a symbolic link', stat.S_ISLNK(os.lstat(dang).st_mode))
+        ok('A-probe exists() is false on a dangling link while the entry is there', (not os.path.exists(dang)) and os.path.lexists(dang))
+        if os.geteuid() == 0:
+            try:
+                os.mknod(dang, stat.S_IFIFO | 0o600)
+                ok('K-mknod onto a dangling link fails (EEXIST)', False)
+            except OSError as e:
+                ok('K-mknod onto a dangling link fails (EEXIST)', e.errno == errno.EEXIST)
+        dang2 = os.path.join(d, 'dangling2')
+        os.symlink(os.path.join(d, 'created-through-link'), dang2)
+        fdc = os.open(dang2, os.O_WRONLY | os.O_CREAT | os.O_TRUNC, 0o600)
+        os.close(fdc)
+        ok('K-create through a dangling link creates the target and keeps the link', os.path.islink(dang2) and os.path.isfile(os.path.join(d, 'created-through-link')))
         # symlink EEXIST
         try:
             os.symlink('x', os.path.join(d, 'r2'))
